@@ -138,7 +138,7 @@ def main():
             jobs = int(args[i + 1])
         if a == "--tier":
             tier = args[i + 1]
-    ms = [m for m in mutants.MUTANTS if (only is None or m["id"] in only)]
+    ms = [m for m in mutants.MUTANTS if (only is None or m["id"] in only) and not (m.get("skip") and only is None)]
     if props_filter and only is None:
         ms = [m for m in ms if m.get("kind") == "preserving" or set(m["props"]) & set(props_filter)]
     results = []
